@@ -105,6 +105,9 @@ def gen_C18(g, tier):
     cs = []
     # the unit test's seed, the first deviates and well past them
     cs.append(Case('bm.real 13 10', 'cmp', 'seeded-stream'))
+    for seed in (13, 1, -5, 123456789):
+        for every in (0, 1, 3):
+            cs.append(Case('o.c18.reseed %d %d %d' % (seed, 40, every), 'orc', 'seeded-stream-with-other-helpers-in-between'))
     cs.append(Case('bm.real 13 501', 'cmp', 'seeded-stream'))
     for _ in range(n // 3):
         seed = g.choice([g.randint(1, 10 ** 6), g.randint(-2 ** 31, 2 ** 31 - 1), g.randint(2 ** 31, 2 ** 40), -g.randint(1, 2 ** 40)])
